@@ -1,10 +1,78 @@
-(** C03 — pinned statements. Nothing but statements, [exact], and assumption audits. *)
-From TU Require Import Base BPE_Model C03_Model C03_Proofs.
+(** C03 — pinned statements. Nothing but statements, [exact], and assumption audits.
+    [merge_word] = the (repaired) heap loop of [BPETokenizer::merge_bytes] for one word;
+    [canon] = the naive reference: among all adjacent pairs whose concatenation is a
+    table entry merge the one with the least (merge id, position), repeat. *)
+From TU Require Import Base BPE_Model C03_Model C02_Inv C02_Loop C02_Proofs C03_Sim C03_Proofs.
 Open Scope N_scope.
+
+(** The heap loop computes exactly the canonical segmentation — for EVERY table (a list of
+    byte strings, id = position; no well-formedness needed) and every word of bytes.
+    In particular the out-of-fuel value [None] is never returned. *)
+Theorem merge_word_canonical : forall (tbl : list (list N)) (w : list N),
+  Forall (fun b => b < 256) w -> merge_word tbl w = Some (canon_ids tbl w).
+Proof. exact merge_word_canonical_l. Qed.
+Print Assumptions merge_word_canonical.
+
+(** The reference step [best] is "lowest merge id, leftmost": it returns a mergeable adjacent
+    pair, and every other mergeable adjacent pair has a larger id or the same id further right. *)
+Theorem best_is_min : forall tbl ts m p, best tbl 0 ts = Some (m, p) ->
+  (exists l x y r, ts = l ++ x :: y :: r /\ p = length l /\ lookup tbl (x ++ y) = Some m) /\
+  (forall l x y r m', ts = l ++ x :: y :: r -> lookup tbl (x ++ y) = Some m' ->
+     m < m' \/ (m = m' /\ (p <= length l)%nat)).
+Proof. exact best_is_min_l. Qed.
+Print Assumptions best_is_min.
+
+(** [best] finds a pair whenever one exists *)
+Theorem best_none_iff : forall tbl ts, best tbl 0 ts = None ->
+  forall l x y r, ts = l ++ x :: y :: r -> lookup tbl (x ++ y) = None.
+Proof. exact best_none_l. Qed.
+Print Assumptions best_none_iff.
+
+(** In the result of the reference no adjacent pair is mergeable (its fuel [length ts] is enough). *)
+Theorem canon_maximal : forall tbl ts l x y r,
+  canon tbl ts = l ++ x :: y :: r -> lookup tbl (x ++ y) = None.
+Proof. exact canon_maximal_pairs. Qed.
+Print Assumptions canon_maximal.
+
+(** The reference only regroups the bytes. *)
+Theorem canon_concat : forall tbl ts, concat (canon tbl ts) = concat ts.
+Proof. exact canon_concat_l. Qed.
+Print Assumptions canon_concat.
+
+(** Text level: the ids of [tokenize(s, true)] (no prefix/suffix) are the canonical ids of
+    every whitespace-prefixed word, concatenated. *)
+Theorem bpe_body_canonical : forall tbl s,
+  Forall valid_cp s -> bpe_body tbl s = Some (canon_text tbl s).
+Proof. exact bpe_body_canonical_l. Qed.
+Print Assumptions bpe_body_canonical.
+
+(** The heap invariant the simulation rests on, at loop exit: slots concatenate to the word,
+    every live slot holds a token and carries that token's id. *)
+Theorem merge_word_inv : forall tbl w, Forall (fun b => b < 256) w ->
+  exists bs, merge_word_st tbl w = Some (bs, map (idopt tbl) bs) /\ concat bs = w /\
+             forall k, nth k bs [] <> [] -> Tok tbl (nth k bs []).
+Proof. exact merge_word_inv_l. Qed.
+Print Assumptions merge_word_inv.
 
 (** The loop as it stood at the pinned commit (defect D1) is NOT canonical:
     table {ab:0, abc:1}, word "abc" gives [256, 99] instead of [257]. *)
 Theorem merge_word_pinned_refuted :
-  exists tbl w, merge_word_pinned tbl w <> Some (canon_ids tbl w).
+  exists tbl w, Forall (fun b => b < 256) w /\ merge_word_pinned tbl w <> Some (canon_ids tbl w).
 Proof. exact merge_word_pinned_refuted_l. Qed.
 Print Assumptions merge_word_pinned_refuted.
+
+(** The executable statement evaluated on the implementation's outputs holds of the model's own output. *)
+Theorem check_run : forall v, Forall valid_cp (v_str (v_nth 1 v)) -> check_C03 v (run_C03 v) = true.
+Proof. exact check_run_C03_l. Qed.
+Print Assumptions check_run.
+
+(** Non-vacuity: a three-level chain ab < abc < abcd collapses " abcd"-style words into one token,
+    competing merges ab / bc are resolved by id, and the premises are met by concrete inputs. *)
+Example chain3 : merge_word [[97;98];[97;98;99];[97;98;99;100]] [97;98;99;100] = Some [258].
+Proof. vm_compute. reflexivity. Qed.
+Example competing : merge_word [[98;99];[97;98]] [97;98;99;97;98] = Some [97;256;257].
+Proof. vm_compute. reflexivity. Qed.
+Example premise_bytes : Forall (fun b => b < 256) [97;98;99;100].
+Proof. repeat constructor. Qed.
+Example premise_text : Forall valid_cp [32;228;8364;128512].
+Proof. repeat constructor. Qed.
